@@ -1,7 +1,7 @@
 #!/bin/bash
 # run every thorough check once (default seed or $1) and print the summary lines
 cd "$(dirname "$0")/.."
-for P in C03 C04 C05 C06 C10 C11 C12 C13 C15 C16; do
+for P in ${THOROUGH_ORDER:-C03 C04 C05 C06 C10 C11 C12 C13 C15 C16}; do
   START=$(date +%s)
   OUT=$(VERIF_SEED=${1:-20261004} VERIF_OUT=${VERIF_OUT:-/var/tmp/thorough-out} bin/check $P thorough 2>&1)
   CODE=$?
